@@ -1239,6 +1239,50 @@ def build_image(tree, block_size=4096, comp=1, use_frags=True, exportable=True, 
     return bytes(img), fmap, info
 
 
+def chain_image(depth, block_size=4096):
+    """A completely valid image d/d/d/.../d with `depth` nested directories (one entry each), written without building path strings."""
+    N = depth + 1                                  # directory inodes; number k (1 = deepest) at stream offset 32 * (k - 1); root = N
+    ino = bytearray()
+    dirs = bytearray()
+    for k in range(1, N + 1):
+        if k == 1:
+            size, doff, links = 3, 0, 2
+        else:
+            doff = 21 * (k - 2)
+            size, links = 21 + 3, 3
+        ino += struct.pack("<HHHHII", 1, 0o755 | 0o040000, 0, 0, 0, k)
+        ino += struct.pack("<IIHHI", (doff // META) * (META + 2), links, size, doff % META, k + 1 if k < N else N + 1)
+        if k >= 2:
+            child_off = 32 * (k - 2)
+            dirs += struct.pack("<III", 0, (child_off // META) * (META + 2), k - 1)
+            dirs += struct.pack("<HhHH", child_off % META, 0, 1, 0) + b"d"
+
+    def ser(buf):
+        out = bytearray()
+        for i in range(0, len(buf), META):
+            chunk = buf[i:i + META]
+            out += struct.pack("<H", 0x8000 | len(chunk)) + chunk
+        return out
+    img = bytearray(96)
+    inode_table = len(img)
+    img += ser(ino)
+    dir_table = len(img)
+    img += ser(dirs)
+    idblk = len(img)
+    img += struct.pack("<H", 0x8000 | 4) + struct.pack("<I", 0)
+    id_table = len(img)
+    img += struct.pack("<Q", idblk)
+    bytes_used = len(img)
+    NONE = 0xFFFFFFFFFFFFFFFF
+    flags = F_UNCOMP_INODES | F_UNCOMP_FRAGS | F_UNCOMP_XATTRS | F_UNCOMP_IDS | F_UNCOMP_DATA | F_DUPLICATES | F_NO_XATTRS | F_NO_FRAGS
+    root_off = 32 * (N - 1)
+    img[0:96] = struct.pack("<IIIIIHHHHHHQQQQQQQQ", MAGIC, N, 0, block_size, 0, 1, block_size.bit_length() - 1, flags, 1, 4, 0,
+                            ((root_off // META) * (META + 2)) << 16 | (root_off % META), bytes_used, id_table, NONE, inode_table, dir_table, NONE, NONE)
+    if len(img) % 4096:
+        img += bytes(4096 - len(img) % 4096)
+    return bytes(img)
+
+
 def _nm(p):
     return (p.decode("latin1") if p else "/")[:40]
 
